@@ -57,6 +57,15 @@ def _strip_aliases(resp):
     return resp
 
 
+def _strip_subvar_ids(resp):
+    """items WITHOUT a sub-variable id (`value.id` absent, as on fused variables): alias, element id and position remain"""
+    for dm in resp["result"]["dimensions"]:
+        for el in dm.get("type", {}).get("elements", []) or []:
+            if isinstance(el.get("value"), dict):
+                el["value"].pop("id", None)
+    return resp
+
+
 def _mr_data(n_items):
     # item k selected by k+1 respondents (so that sort orders are strict)
     rows = []
@@ -76,16 +85,38 @@ for _scheme in ("0..n-1", "1..n"):
          [((p, 1 + (i % 2)), 1, None) for i, p in enumerate(_mr_data(3))], post=_strip_aliases)
     _reg("mrnoalias_cols_%s" % _scheme, S.schema2("mrnoalias_cols_%s" % _scheme, B2, _M), 1,
          [((1 + (i % 2), p), 1, None) for i, p in enumerate(_mr_data(3))], post=_strip_aliases)
+# (a multiple-response dimension without `value.id` is not a supported input: Elements._hidden_transforms reads the id of
+# every item whether or not a transform is present, so only categorical / numeric arrays get an id-less variant)
 _Md = _mr("1..n", derived=True)
 _reg("mr_rows_derived", S.schema2("mr_rows_derived", _Md, B2), 0,
      [((p, 1 + (i % 2)), 1, None) for i, p in enumerate(_mr_data(3))])
 _reg("mr_cols_derived", S.schema2("mr_cols_derived", B2, _Md), 1,
+     [((1 + (i % 2), p), 1, None) for i, p in enumerate(_mr_data(3))])
+# sub-variable ids that are digit strings ("1","2","3") next to positional element ids 1..4 with one derived item, as
+# in the repo's mr_insertions fixtures: "2" (sub-variable id of m_2) and 2 (element id of the derived item) are the
+# same TEXT but name different items
+_Mn = _mr("1..n", derived=True)
+for _it in _Mn.items:
+    if not _it["derived"]:
+        _it["sid"] = str(int(_it["alias"].split("_")[1]))
+_reg("mr_rows_numsid", S.schema2("mr_rows_numsid", _Mn, B2), 0,
+     [((p, 1 + (i % 2)), 1, None) for i, p in enumerate(_mr_data(3))])
+_reg("mr_cols_numsid", S.schema2("mr_cols_numsid", B2, _Mn), 1,
      [((1 + (i % 2), p), 1, None) for i, p in enumerate(_mr_data(3))])
 _CA = S.ca("q", 3, 2, "last")
 _reg("ca_items_rows", Schema("ca_items_rows", [_CA], [("ca_items", 0), ("ca_cats", 0)]), 0,
      [(((1, 1, 2),), 1, None), (((1, 2, 2),), 1, None), (((2, 1, -1),), 1, None), (((1, 1, 1),), 1, None)])
 _reg("ca_items_cols", Schema("ca_items_cols", [_CA], [("ca_cats", 0), ("ca_items", 0)]), 1,
      [(((1, 1, 2),), 1, None), (((1, 2, 2),), 1, None), (((2, 1, -1),), 1, None), (((1, 1, 1),), 1, None)])
+_reg("canosid_items_rows", Schema("canosid_items_rows", [_CA], [("ca_items", 0), ("ca_cats", 0)]), 0,
+     DIMS["ca_items_rows"]["data"], post=_strip_subvar_ids)
+_reg("canosid_items_cols", Schema("canosid_items_cols", [_CA], [("ca_cats", 0), ("ca_items", 0)]), 1,
+     DIMS["ca_items_cols"]["data"], post=_strip_subvar_ids)
+_CA0 = S.ca("q", 3, 2, "last")
+for _p, _it in enumerate(_CA0.items):
+    _it["eid"] = 10 * (_p + 1)        # element ids 10, 20, 30: positions 0..2 are no element ids
+_reg("canosid10_items_rows", Schema("canosid10_items_rows", [_CA0], [("ca_items", 0), ("ca_cats", 0)]), 0,
+     DIMS["ca_items_rows"]["data"], post=_strip_subvar_ids)
 _NA = S.numarr("na", 3)
 _reg("numarr_rows", Schema("numarr_rows", [B2], [("cat", 0)], numeric={"measures": ["mean"], "numarr": _NA}), 0,
      [((1,), 1, (1, 5, 9)), ((2,), 1, (3, None, 2)), ((1,), 1, (None, 6, 4)), ((2,), 1, (2, 2, 2))])
@@ -117,12 +148,28 @@ def items_of(dname):
             out.append({"canon": it["alias"], "spellings": [it["alias"], it["sid"], p, str(p)], "derived": False,
                         "sid": it["sid"]})
         return out
-    role, vi = sch.dims[d["axis"]] if not dname.startswith("ca_items") else ("ca_items", 0)
+    role, vi = sch.dims[d["axis"]] if not dname.startswith(("ca_items", "canosid")) else ("ca_items", 0)
     var = sch.vars[vi]
     if isinstance(var, EnumVar):
         return [{"canon": v, "spellings": [v, i, str(i)], "derived": False, "sid": None} for i, v in var.elements]
     eids = [it["eid"] for it in var.items]
     out = []
+    if dname.endswith("numsid"):
+        # a digit string that is one item's sub-variable id AND another item's element id is left out (the statement
+        # does not rank the two readings); what remains: alias, int element id, and the sub-variable id / the string
+        # element id where only one reading exists or both name the same item
+        # (exception, from the docstring of translate_element_id - sub-variable id before parsed number - and the
+        # comment there on derived items: a digit string that is a real item's sub-variable id and otherwise only a
+        # DERIVED item's element id reads as the sub-variable id)
+        sids = {it["sid"]: p for p, it in enumerate(var.items)}
+        seid = {str(it["eid"]): p for p, it in enumerate(var.items) if not it.get("derived")}
+        for p, it in enumerate(var.items):
+            sp = [it["alias"], it["eid"]]
+            for txt in (it["sid"],) + (() if it.get("derived") else (str(it["eid"]),)):
+                if sids.get(txt, p) == p and seid.get(txt, p) == p and txt not in sp:
+                    sp.append(txt)
+            out.append({"canon": it["alias"], "spellings": sp, "derived": bool(it.get("derived")), "sid": it["sid"]})
+        return out
     if dname.startswith("mrnoalias"):
         for p, it in enumerate(var.items):
             sp = [it["eid"], str(it["eid"]), it["sid"]]
@@ -130,16 +177,20 @@ def items_of(dname):
                 sp += [p, str(p)]
             out.append({"canon": it["eid"], "spellings": sp, "derived": False, "sid": it["sid"]})
         return out
+    nosid = "nosid" in dname
     for p, it in enumerate(var.items):
-        sp = [it["alias"], it["sid"], it["eid"], str(it["eid"])]
+        sp = [it["alias"], it["eid"], str(it["eid"])] + ([] if nosid else [it["sid"]])
         if p not in eids:
             sp += [p, str(p)]
-        out.append({"canon": it["alias"], "spellings": sp, "derived": bool(it.get("derived")), "sid": it["sid"]})
+        out.append({"canon": it["alias"], "spellings": sp, "derived": bool(it.get("derived")),
+                    "sid": None if nosid else it["sid"]})
     return out
 
 
 SLOTS = ["hide", "rename", "fill", "explicit_first", "explicit_pair", "fixed_top", "fixed_bottom",
          "opposing_element", "opposing_insertion", "key_alias", "key_subvar_id"]
+# two references to two DIFFERENT items of the same dimension in one cube (every ordered item pair x every spelling pair)
+PAIR_SLOTS = ["pair:rename+hide", "pair:explicit", "pair:top+bottom", "pair:rename+opposing", "pair:hide+fixed"]
 BAD = ["zz", -1, "-3", "1.5", 99, "99", None, [2], {"id": 1}]
 
 
@@ -163,7 +214,32 @@ def _states():
                 if isinstance(BAD[b], (list, dict)) and slot in ("hide", "rename", "fill", "key_alias", "key_subvar_id"):
                     continue      # those slots use the reference as a JSON object key: always a string
                 out.append((dname, slot, -1, b))
+        for slot in PAIR_SLOTS:
+            for ka, kb in itertools.permutations(range(len(its)), 2):
+                for sa in range(len(its[ka]["spellings"])):
+                    for sb in range(len(its[kb]["spellings"])):
+                        if sa or sb:
+                            out.append((dname, slot, (ka, kb), (sa, sb)))
     return out
+
+
+def _pair_transform(dname, slot, a, b):
+    d = DIMS[dname]
+    axis = d["axis"]
+    me = "rows_dimension" if axis == 0 else "columns_dimension"
+    opp = "columns_dimension" if axis == 0 else "rows_dimension"
+    if slot == "pair:rename+hide":
+        return {me: {"elements": {a: {"name": "RENAMED"}, b: {"hide": True}}}}
+    if slot == "pair:explicit":
+        return {me: {"order": {"type": "explicit", "element_ids": [a, b]}}}
+    if slot == "pair:top+bottom":
+        return {me: {"order": {"type": "label", "direction": "descending", "fixed": {"top": [a], "bottom": [b]}}}}
+    if slot == "pair:hide+fixed":
+        return {me: {"elements": {a: {"hide": True}},
+                     "order": {"type": "label", "direction": "ascending", "fixed": {"bottom": [b]}}}}
+    meas = "mean" if dname.startswith("numarr") else ("col_percent" if axis == 1 else "row_percent")
+    return {me: {"elements": {a: {"name": "RENAMED"}}},
+            opp: {"order": {"type": "opposing_element", "measure": meas, "element_id": b}}}
 
 
 def spaces(tier):
@@ -171,7 +247,7 @@ def spaces(tier):
     for st in _states():
         by.setdefault(st[0], []).append(st)
     return [Space(d, [(1, (lambda sts=sts: iter(sts)))], 1,
-                  {"dimension": d, "slots": SLOTS, "items": len(items_of(d)), "bad_references": [repr(b) for b in BAD]})
+                  {"dimension": d, "slots": SLOTS + PAIR_SLOTS, "items": len(items_of(d)), "bad_references": [repr(b) for b in BAD]})
             for d, sts in sorted(by.items())]
 
 
@@ -223,6 +299,10 @@ _OMIT = _Omit()
 def detail(space, state):
     dname, slot, k, s = state
     its = items_of(dname)
+    if slot.startswith("pair:"):
+        a, b = its[k[0]]["spellings"][s[0]], its[k[1]]["spellings"][s[1]]
+        return {"dimension": dname, "slot": slot, "items": list(k), "references": [a, b],
+                "transforms": repr(_pair_transform(dname, slot, a, b))}
     key = BAD[s] if k < 0 else its[k]["spellings"][s]
     return {"dimension": dname, "slot": slot, "item": k, "reference": key,
             "transforms": _transform(dname, slot, key, its[0]["canon"] if its else None)}
@@ -274,6 +354,21 @@ def check(space, state):
     dname, slot, k, s = state
     its = items_of(dname)
     V = []
+    if slot.startswith("pair:"):
+        ia, ib = its[k[0]], its[k[1]]
+        a, b = ia["spellings"][s[0]], ib["spellings"][s[1]]
+        try:
+            got = _run(dname, _pair_transform(dname, slot, a, b))
+        except Exception as e:
+            V.append(viol("%s:raises" % slot, "references %r, %r (items %r) in %s raise %s: %s"
+                          % (a, b, k, slot, type(e).__name__, e)))
+            return Res(V, False, None, 1)
+        ref = _run(dname, _pair_transform(dname, slot, ia["canon"], ib["canon"]))
+        n = _same(V, slot, got, ref, "items %r spelled %r, %r vs aliases %r, %r" % (k, a, b, ia["canon"], ib["canon"]))
+        base = _run(dname, {})
+        ntv = (got[2], got[3]) != (base[2], base[3]) or any(
+            repr(got[1].get(nm)) != repr(base[1].get(nm)) for nm in ("row_labels", "column_labels"))
+        return Res(V, bool(ntv), digest(dname, slot, k, repr(got[2]), repr(got[3])), n)
     other = its[0]["canon"] if k != 0 else its[1]["canon"]
     if k >= 0:
         it = its[k]
